@@ -270,13 +270,18 @@ def probeShift (sigmar : α) : α :=
   let (_, r2) := Gen.Rand.draw (α := α) s1
   r1 * sigmar + r2
 
-/-- `root_part1 ± root_part2` for one transformed value `nu` -/
+/-- the two candidates for one transformed value `nu` (repair 0117f45 of the cancellation at `nu ≈ 0`, finding C02-resigma-cancellation):
+    `sqrt_disc = sqrt(1 - 4 σi² nu²)`, `root1 = root_part1 + root_part2 = (σr + 0.5/nu) + 0.5 * sqrt_disc / nu` as before, and
+    `root2 = m_sigmar + (Scalar(2) * m_sigmai * m_sigmai) * nu / (Scalar(1) + sqrt_disc)` (product of the roots = σi²; equal to
+    `root_part1 - root_part2` over a field, `Properties/C02.c02_quadratic_root2`; exactly `σr` for `nu = 0`), with the C++ association
+    `σr + (((2 σi) σi) * nu) / (1 + sqrt_disc)` and ONE square-root value shared by both roots -/
 def csRoots (sigmar sigmai : α) (nu : Cx α) : Cx α × Cx α :=
-  let part1 := raddc sigmar (rdivc half nu)
   let c : α := ((Sc.ofInt 4 : α) * sigmai) * sigmai
-  let disc := rsubc one (rmulc c (cmul nu nu))
-  let part2 := cdivc (rmulc half (csqrt disc)) nu
-  (cadd part1 part2, csub part1 part2)
+  let sqrtDisc := csqrt (rsubc one (rmulc c (cmul nu nu)))
+  let part1 := raddc sigmar (rdivc half nu)
+  let part2 := cdivc (rmulc half sqrtDisc) nu
+  let c2 : α := ((Sc.ofInt 2 : α) * sigmai) * sigmai
+  (cadd part1 part2, raddc sigmar (cdivc (rmulc c2 nu) (raddc one sqrtDisc)))
 
 /-- `err = Σ_k norm(OPv_k - v_k / (root - shift))` -/
 def probeErr (n : Nat) (vr vi opr opi : Vec α) (root : Cx α) (shiftr : α) : α :=
